@@ -1,5 +1,5 @@
 (* C07 — The dynamic-route cache never changes what a request observes. Property theorems only. *)
-From Rux Require Import Base Cache Table TableFacts.
+From Rux Require Import Base Str Cache Table TableFacts Chain Dispatch Reg Sys SysFacts SysHistory.
 
 (* one lookup: same answer (route and parameters) as the non-caching twin, and the cache stays coherent *)
 Theorem C07_match : forall rt m p, coherent rt -> no_slash m -> rooted p ->
@@ -28,9 +28,17 @@ Theorem C07_key_injective : forall m1 m2 p1 p2, no_slash m1 -> no_slash m2 -> ro
   m1 ++ p1 = m2 ++ p2 -> m1 = m2 /\ p1 = p2.
 Proof. exact key_split. Qed.
 
+(* end to end (Sys.v): for every registration program, every handler table and hooks, every history of requests and any
+   capacity, the outcomes - handler traces, parameters seen by handlers, response logs, escapes - of the caching router equal,
+   request by request, those of the same router with caching disabled *)
+Theorem C07_end_to_end : forall progs hooks o ss s h, sys_build o ss = Ok s -> hist_no_slash h ->
+  sys_outcomes progs hooks s h = sys_outcomes progs hooks (set_rt s (nocache (s_rt s))) h.
+Proof. exact sys_cache_transparent. Qed.
+
 Print Assumptions C07_match.
 Print Assumptions C07_quick_match.
 Print Assumptions C07_transparent.
 Print Assumptions C07_initial.
 Print Assumptions C07_registration_keeps_cache_empty.
 Print Assumptions C07_key_injective.
+Print Assumptions C07_end_to_end.
